@@ -3,7 +3,7 @@
    provenance class of its destination (fresh = a buffer made by the same call).
    Proofs/HeapSites.v checks this table against the inventory regenerated from
    /repo (Gen/WriteSites.v) on every run. *)
-From Coq Require Import String List.
+From Coq Require Import String Ascii List Arith.
 Import ListNotations.
 Open Scope string_scope.
 
@@ -53,6 +53,40 @@ Definition site_model : list (string * string) :=
 (* the only destination that is not a buffer of the call's own *)
 Definition allowed_shared : list (string * string) :=
   [("pcs/pcs.go:sgxTcbComponentOid", "append")].
+
+(* What the tie to the source checks (names of functions do not matter, so that
+   renaming or splitting a function is not an alarm): per source file, how many
+   sites of each kind write to a destination of each class, and that there are
+   no others. *)
+Definition site_counts : list (string * string * string * nat) :=
+  [("abi/abi.go", "copy", "fresh", 30);
+   ("abi/abi.go", "append", "fresh", 11);
+   ("abi/abi.go", "put", "fresh", 12);
+   ("pcs/pcs.go", "append", "shared", 1);
+   ("pcs/pcs.go", "index", "fresh", 2);
+   ("rtmr/ccel.go", "append", "fresh", 1);
+   ("rtmr/ccel.go", "copy", "fresh", 1);
+   ("verify/verify.go", "index", "fresh", 1);
+   ("verify/verify.go", "append", "fresh", 4)].
+
+Fixpoint file_of (s : string) : string :=
+  match s with
+  | EmptyString => EmptyString
+  | String c r => if Ascii.eqb c ":"%char then EmptyString else String c (file_of r)
+  end.
+
+Definition count_sites (f k c : string) (l : list (string * string * string * string)) : nat :=
+  length (filter (fun e => String.eqb (file_of (fst (fst (fst e)))) f && String.eqb (snd (fst (fst e))) k && String.eqb (snd e) c)%bool l).
+
+Definition counts_ok (l : list (string * string * string * string)) : bool :=
+  forallb (fun r => Nat.eqb (count_sites (fst (fst (fst r))) (snd (fst (fst r))) (snd (fst r)) l) (snd r)) site_counts
+  && Nat.eqb (length l) (fold_right (fun r a => snd r + a) 0 site_counts).
+
+Definition shared_files_of (l : list (string * string * string * string)) : list (string * string) :=
+  map (fun e => (file_of (fst (fst (fst e))), snd (fst (fst e))))
+      (filter (fun e => String.eqb (snd e) "shared") l).
+
+Definition allowed_shared_files : list (string * string) := [("pcs/pcs.go", "append")].
 
 (* group consecutive inventory entries by function *)
 Fixpoint group (l : list (string * string * string * string)) : list (string * list (string * string)) :=
